@@ -190,9 +190,9 @@ func TestC18Builder(t *testing.T) {
 }
 
 // C18 (merge iterator): sorted multiset union; SeekFirst/Seek reposition at any point.
-func TestC18Merger(t *testing.T) {
-	st := ev.Get("C18", "TestC18Merger")
-	rapid.Check(t, func(t *rapid.T) {
+func makePropC18Merger(test string) func(t *rapid.T) {
+	st := ev.Get("C18", test)
+	return func(t *rapid.T) {
 		sched.SeedRand(t)
 		f := &failer{t: t, st: st}
 		nl := rapid.IntRange(0, 5).Draw(t, "nlists")
@@ -272,7 +272,16 @@ func TestC18Merger(t *testing.T) {
 			it.Close()
 		}
 		st.Case(f.desc(), reseekAfterNext)
-	})
+	}
+}
+
+func TestC18Merger(t *testing.T) {
+	rapid.Check(t, makePropC18Merger("TestC18Merger"))
 }
 
 var _ = unsafe.Pointer(nil)
+
+// FuzzC18Merger drives the merge iterator property with coverage-guided native fuzzing (thorough tier).
+func FuzzC18Merger(f *testing.F) {
+	f.Fuzz(rapid.MakeFuzz(makePropC18Merger("FuzzC18Merger")))
+}
